@@ -62,6 +62,7 @@ namespace
         std::map<const void *, std::int64_t>           slot;         // child graph memory -> slot ordinal (first seen)
         std::int64_t                                   ninst{0};
         bool                                           ref_mode{false};
+        std::map<std::int64_t, std::vector<std::pair<std::int64_t, std::int64_t>>> setops;   // time -> (op 1 add / 0 remove, value)
     };
     Ctx *g_ctx = nullptr;
 
@@ -304,6 +305,59 @@ namespace
         return branch_fn_sh<0, 0>(nts, usekey, slot);
     }
 
+    // ---- "set input" mode (case line "9 1"): a held TSS<Int> input and a body consuming its DELTA statefully ----
+    struct SetSrc
+    {
+        static constexpr auto name = "hgv_set_src";
+        static void           start(NodeScheduler sched, DateTime now)
+        {
+            auto it = g_ctx->setops.lower_bound(us(now));
+            if (it != g_ctx->setops.end()) { sched.schedule(dt(it->first)); }
+        }
+        static void eval(NodeScheduler sched, DateTime now, Out<TSS<Int>> out)
+        {
+            auto it = g_ctx->setops.find(us(now));
+            if (it != g_ctx->setops.end())
+            {
+                for (auto &[op, v] : it->second) { if (op) { static_cast<void>(out.add(Int{v})); } else { static_cast<void>(out.remove(Int{v})); } }
+            }
+            auto nx = g_ctx->setops.upper_bound(us(now));
+            if (nx != g_ctx->setops.end()) { sched.schedule(dt(nx->first)); }
+        }
+    };
+    // counts the elements ever shown to it as added; emits seen * 100 + size
+    template <int S>
+    struct SetBody
+    {
+        static constexpr auto name = "hgv_set_body";
+        static void eval(NodeView node, In<"s", TSS<Int>> s, DateTime now, State<Int> seen, Out<TS<Int>> out)
+        {
+            auto add = s.added(); auto rem = s.removed(); auto vals = s.values();
+            std::sort(add.begin(), add.end()); std::sort(rem.begin(), rem.end()); std::sort(vals.begin(), vals.end());
+            Line l{56, us(now), inst_of(branch_data(node.graph())), seen.get(), (std::int64_t)add.size(), (std::int64_t)rem.size(),
+                   (std::int64_t)vals.size()};
+            for (auto v : add) { l.push_back(v); }
+            for (auto v : rem) { l.push_back(v); }
+            for (auto v : vals) { l.push_back(v); }
+            emit(l);
+            seen.set(seen.get() + (Int)add.size());
+            out.set(Int{seen.get() * 100 + (Int)vals.size()});
+        }
+    };
+    template <int S>
+    struct SetBr
+    {
+        static constexpr auto name = "hgv_set_br";
+        static Port<TS<Int>>  compose(Wiring &w, Port<TSS<Int>> s) { return wire<SetBody<S>>(w, s); }
+    };
+    template <int... S>
+    WiredFn set_branch_fn(int slot, std::integer_sequence<int, S...>)
+    {
+        WiredFn r{};
+        ((slot == S ? (r = fn<SetBr<S>>(), 0) : 0), ...);
+        return r;
+    }
+
     // ---- recording sink on the switch output ----
     struct Rec
     {
@@ -367,6 +421,7 @@ namespace
         ctx.out = &out;
         g_ctx   = &ctx;
         std::int64_t start = 1, end = 10, nts = 1, reload = 0, shape = 0, depth = 0;
+        bool         setin = false;
         struct CaseEnt { std::int64_t key, slot, usekey; };
         std::vector<CaseEnt>   ents;
         std::optional<CaseEnt> dflt;
@@ -385,6 +440,8 @@ namespace
                 b.sd = l.size() >= 16 ? l[15] : 0;
             }
             else if (l[0] == 6 && l.size() >= 4 && l[1] >= 0 && l[1] <= 2) { ctx.src[l[1]].emplace(l[2], l[3]); }
+            else if (l[0] == 7 && l.size() >= 4) { ctx.setops[l[1]].push_back({l[2], l[3]}); }
+            else if (l[0] == 9 && l.size() >= 2) { setin = l[1] != 0; }
         }
         if (nts < 0 || nts > 2 || shape < 0 || shape > 1 || depth < 0 || depth > 2 || (depth > 0 && shape != 0) || (ents.empty() && !dflt) || start < 1 || start >= end || end > 100000) { out.line({29, 9}); return; }
         for (auto &e : ents) { if (e.slot < 0 || e.slot >= NSLOT) { out.line({29, 9}); return; } }
@@ -414,9 +471,23 @@ namespace
                 auto b = wire<Src<2>>(w);
                 return wire<stdlib::switch_>(w, key, cases, a, b);
             };
+            if (setin)
+            {
+                // key + one held TSS<Int> input; every case entry is the delta-consuming body (distinct graph per slot)
+                stdlib::SwitchCases sc;
+                auto seq = std::make_integer_sequence<int, NSLOT>{};
+                for (auto &e : ents) { sc.cases.push_back(stdlib::SwitchCase{Value{Int{e.key}}, set_branch_fn((int)e.slot, seq)}); }
+                if (dflt) { sc.default_branch = set_branch_fn((int)dflt->slot, seq); }
+                sc.reload_on_ticked = reload != 0;
+                auto sset = wire<SetSrc>(w);
+                wire<Rec>(w, wire<stdlib::switch_>(w, key, sc, sset).template as<TS<Int>>());
+            }
+            else
+            {
             auto sw = wire_switch();
             if (shape == 1) { wire<RecS>(w, sw.template as<TSS<Int>>()); }
             else { wire<Rec>(w, sw.template as<TS<Int>>()); }
+            }
             GraphBuilder gb = std::move(w).finish();
 
             Obs                  obs;
@@ -461,7 +532,7 @@ namespace
             std::fprintf(stderr, "build error: %s\n", e.what());
         }
         };
-        if (depth > 0) { run_once(0, true); }
+        if (depth > 0 && !setin) { run_once(0, true); }
         run_once((int)depth, false);
         g_ctx = nullptr;
     }
